@@ -2,7 +2,7 @@
 from __future__ import annotations
 
 import ast
-from typing import Callable, Iterable, List, Optional, Set, Tuple
+from typing import Callable, Dict, Iterable, List, Optional, Set, Tuple
 
 from .cfg import CFG, Node, cfg_of
 from .dataflow import FunctionFlow, flow_of
@@ -375,3 +375,350 @@ def cached_result_mutations(ctx, fi):
             if at is not None and any(d is dd for dd in flow.reaching(at, nm) for (d, _) in names[nm]):
                 out.append((x, names[nm][0][1]))
     return out
+
+
+def mutable_default_mutations(fn_node: ast.FunctionDef):
+    """[(parameter, default expression, mutating statement)] for parameters whose default is a mutable object built
+    once at definition time (set(), [], {}, dict(), list(), ...) and which the body modifies in place (method call
+    update/add/append/..., item store, augmented assignment) without re-binding the name first: the object is shared
+    by all calls, so whatever one call puts into it is still there in the next."""
+    a = fn_node.args
+    pos = list(a.posonlyargs) + list(a.args)
+    pairs = list(zip(pos[len(pos) - len(a.defaults):], a.defaults)) + [(p, d) for p, d in zip(a.kwonlyargs, a.kw_defaults) if d is not None]
+    out = []
+    for (p, d) in pairs:
+        mutable = isinstance(d, (ast.List, ast.Dict, ast.Set, ast.ListComp, ast.DictComp, ast.SetComp)) or (
+            isinstance(d, ast.Call) and dotted_name(d.func).split(".")[-1] in ("set", "list", "dict", "defaultdict", "OrderedDict", "deque", "zeros", "empty", "ones", "array", "bytearray"))
+        if not mutable:
+            continue
+        name = p.arg
+        rebound_first = False
+        for st in fn_node.body:
+            # a leading `if x is None` idiom does not apply (the default is not None); a plain re-binding before any use does
+            if isinstance(st, ast.Assign) and any(isinstance(t, ast.Name) and t.id == name for t in st.targets) and not any(isinstance(x, ast.Name) and x.id == name for x in ast.walk(st.value)):
+                rebound_first = True
+            break_ = any(isinstance(x, ast.Name) and x.id == name for x in ast.walk(st))
+            if break_:
+                break
+        if rebound_first:
+            continue
+        for x in ast.walk(fn_node):
+            hit = None
+            if isinstance(x, ast.Call) and isinstance(x.func, ast.Attribute) and isinstance(x.func.value, ast.Name) and x.func.value.id == name and x.func.attr in INPLACE_CONTAINER_METHODS:
+                hit = x
+            elif isinstance(x, (ast.Assign, ast.AugAssign)):
+                tgs = x.targets if isinstance(x, ast.Assign) else [x.target]
+                for t in tgs:
+                    b = t
+                    while isinstance(b, ast.Subscript):
+                        b = b.value
+                    if isinstance(b, ast.Name) and b.id == name and (isinstance(t, ast.Subscript) or isinstance(x, ast.AugAssign)):
+                        hit = x
+            if hit is not None:
+                out.append((name, d, hit))
+                break
+    return out
+
+
+def retained_state_copies(cls_node: ast.ClassDef, state_attr: str = "state"):
+    """Stores, outside the constructor, into attributes of an object that works on a separate state object
+    (`self.<state_attr>`) of values derived from that state: [(method node, statement, attribute)].
+
+    A step object that keeps such a copy answers later calls from it; nothing the state object does (commit, import of
+    a checkpoint, replacement of its history) can invalidate it.  Derivation is a flow-insensitive taint over the
+    method's assignments, seeded by every call on `self.<state_attr>`; only attributes that some method reads back
+    (outside the storing statement) are reported."""
+    out = []
+    reads: Dict[str, int] = {}
+    for m in cls_node.body:
+        if not isinstance(m, ast.FunctionDef):
+            continue
+        for x in ast.walk(m):
+            if isinstance(x, ast.Attribute) and isinstance(x.value, ast.Name) and x.value.id == "self" and isinstance(x.ctx, ast.Load):
+                reads[x.attr] = reads.get(x.attr, 0) + 1
+            elif isinstance(x, ast.Call) and isinstance(x.func, ast.Name) and x.func.id == "getattr" and len(x.args) >= 2 and isinstance(x.args[0], ast.Name) and x.args[0].id == "self" \
+                    and isinstance(x.args[1], ast.Constant) and isinstance(x.args[1].value, str):
+                reads[x.args[1].value] = reads.get(x.args[1].value, 0) + 1
+
+    def is_state_call(x):
+        if not isinstance(x, ast.Call):
+            return False
+        f = x.func
+        while isinstance(f, ast.Attribute):
+            f = f.value
+            if isinstance(f, ast.Attribute) and isinstance(f.value, ast.Name) and f.value.id == "self" and f.attr == state_attr:
+                return True
+        return False
+
+    for m in cls_node.body:
+        if not isinstance(m, ast.FunctionDef) or m.name in ("__init__", "__post_init__", "__setstate__", "__getstate__"):
+            continue
+        tainted: Set[str] = set()
+        assigns = [x for x in ast.walk(m) if isinstance(x, (ast.Assign, ast.AugAssign, ast.AnnAssign, ast.For, ast.comprehension, ast.withitem))]
+
+        def dirty(e) -> bool:
+            return e is not None and any(is_state_call(y) or (isinstance(y, ast.Name) and y.id in tainted) for y in ast.walk(e))
+
+        for _ in range(6):
+            before = len(tainted)
+            for a in assigns:
+                if isinstance(a, ast.Assign):
+                    tg, v = a.targets, a.value
+                elif isinstance(a, (ast.AugAssign, ast.AnnAssign)):
+                    tg, v = [a.target], a.value
+                elif isinstance(a, (ast.For, ast.comprehension)):
+                    tg, v = [a.target], a.iter
+                else:
+                    tg, v = ([a.optional_vars] if a.optional_vars is not None else []), a.context_expr
+                if dirty(v):
+                    for t in tg:
+                        for y in ast.walk(t):
+                            if isinstance(y, ast.Name) and isinstance(y.ctx, ast.Store):
+                                tainted.add(y.id)
+            if len(tainted) == before:
+                break
+        for x in ast.walk(m):
+            attr = None
+            val = None
+            if isinstance(x, (ast.Assign, ast.AugAssign, ast.AnnAssign)):
+                tgs = x.targets if isinstance(x, ast.Assign) else [x.target]
+                for t in tgs:
+                    for tt in (t.elts if isinstance(t, (ast.Tuple, ast.List)) else [t]):
+                        b = tt
+                        while isinstance(b, ast.Subscript):
+                            b = b.value
+                        if isinstance(b, ast.Attribute) and isinstance(b.value, ast.Name) and b.value.id == "self":
+                            attr, val = b.attr, x.value
+            elif isinstance(x, ast.Expr) and isinstance(x.value, ast.Call) and isinstance(x.value.func, ast.Attribute) and x.value.func.attr in INPLACE_CONTAINER_METHODS:
+                b = x.value.func.value
+                while isinstance(b, ast.Subscript):
+                    b = b.value
+                if isinstance(b, ast.Attribute) and isinstance(b.value, ast.Name) and b.value.id == "self":
+                    attr = b.attr
+                    val = ast.Tuple(elts=list(x.value.args) + [k.value for k in x.value.keywords], ctx=ast.Load())
+            if attr is None or attr == state_attr:
+                continue
+            own_reads = sum(1 for y in ast.walk(x) if isinstance(y, ast.Attribute) and isinstance(y.value, ast.Name) and y.value.id == "self" and y.attr == attr and isinstance(y.ctx, ast.Load))
+            if dirty(val) and reads.get(attr, 0) - own_reads > 0 and not _reset_per_call(cls_node, attr):
+                out.append((m, x, attr))
+    return out
+
+
+def _reset_per_call(cls_node: ast.ClassDef, attr: str) -> bool:
+    """Is `self.<attr>` scratch storage of one call?  True when every public method that (through calls of the object's
+    own methods) reads the attribute re-binds it to an empty container / None, unconditionally (a top-level statement
+    of its body), before the first statement that can read it."""
+    methods = {m.name: m for m in cls_node.body if isinstance(m, ast.FunctionDef)}
+
+    def loads(node) -> bool:
+        for y in ast.walk(node):
+            if isinstance(y, ast.Attribute) and isinstance(y.value, ast.Name) and y.value.id == "self" and y.attr == attr and isinstance(y.ctx, ast.Load):
+                return True
+            if isinstance(y, ast.Call) and isinstance(y.func, ast.Name) and y.func.id in ("getattr", "hasattr") and len(y.args) >= 2 and isinstance(y.args[1], ast.Constant) and y.args[1].value == attr:
+                return True
+        return False
+
+    reading = {n for n, m in methods.items() if loads(m)}
+    for _ in range(len(methods)):
+        more = {n for n, m in methods.items() if n not in reading and any(
+            isinstance(y, ast.Call) and isinstance(y.func, ast.Attribute) and isinstance(y.func.value, ast.Name) and y.func.value.id == "self" and y.func.attr in reading for y in ast.walk(m))}
+        if not more:
+            break
+        reading |= more
+
+    def reads_stmt(st) -> bool:
+        if loads(st):
+            return True
+        return any(isinstance(y, ast.Call) and isinstance(y.func, ast.Attribute) and isinstance(y.func.value, ast.Name) and y.func.value.id == "self" and y.func.attr in reading for y in ast.walk(st))
+
+    def is_reset(st) -> bool:
+        if not (isinstance(st, ast.Assign) and len(st.targets) == 1 and isinstance(st.targets[0], ast.Attribute) and isinstance(st.targets[0].value, ast.Name)
+                and st.targets[0].value.id == "self" and st.targets[0].attr == attr):
+            return False
+        v = st.value
+        return (isinstance(v, (ast.Dict, ast.List, ast.Set, ast.Tuple)) and not (v.keys if isinstance(v, ast.Dict) else v.elts)) or (isinstance(v, ast.Constant) and v.value is None) \
+            or (isinstance(v, ast.Call) and not v.args and not v.keywords and dotted_name(v.func).split(".")[-1] in ("dict", "list", "set", "OrderedDict", "defaultdict"))
+
+    public = [m for n, m in methods.items() if not n.startswith("_") and n in reading]
+    if not public:
+        return False
+    for m in public:
+        ok = False
+        for st in m.body:
+            if is_reset(st):
+                ok = True
+                break
+            if reads_stmt(st):
+                break
+        if not ok:
+            return False
+    return True
+
+
+def stateless_steps_rule(ctx, R, rule: str, class_names, what: str):
+    """`rule`: the step objects named in `class_names` keep no copy of state-derived data between calls."""
+    n = 0
+    for c in ctx.prog.classes.values():
+        if c.name not in class_names:
+            continue
+        n += 1
+        hits = retained_state_copies(c.node)
+        fi = next(iter(c.methods.values()))
+        for (m, x, attr) in hits:
+            mfi = c.methods.get(m.name, fi)
+            R.check(rule, f"{c.name} keeps no copy of state-derived data between calls", False, mfi, x,
+                    msg=f"{c.name}.{m.name}: `{ast.unparse(x)[:70]}` stores data derived from the state object in `self.{attr}` and a later call reads it back: the copy outlives "
+                        f"the call, and nothing the state object does (commit, load of a checkpoint) refreshes it -- {what}", key=f"retained-state-copy:{c.name}.{attr}")
+        if not hits:
+            R.check(rule, f"{c.name} keeps no copy of state-derived data between calls", True, fi, c.node, key=f"retained-state-copy:{c.name}")
+    R.floor(rule, "step classes scanned for retained state copies", n, len(class_names))
+
+
+_INJECTIVE_WRAPPERS = {"tuple", "frozenset", "int", "float", "str", "bytes", "repr", "hash", "sorted", "list", "tobytes", "tolist", "asarray", "array", "ravel", "flatten", "map", "id"}
+
+
+def process_lifetime_memos(fi_node: ast.FunctionDef, module_names: Set[str], cls_name: Optional[str] = None):
+    """[(statement, container text, key expression, value expression)] for item stores into storage that lives as long as the
+    process: a module-level container, a `global`, a class attribute."""
+    out = []
+    globals_ = {g for x in ast.walk(fi_node) if isinstance(x, ast.Global) for g in x.names}
+    local = {x.id for x in ast.walk(fi_node) if isinstance(x, ast.Name) and isinstance(x.ctx, ast.Store)} | {a.arg for a in fi_node.args.args + fi_node.args.kwonlyargs}
+    for st in ast.walk(fi_node):
+        if isinstance(st, ast.Assign) and len(st.targets) == 1 and isinstance(st.targets[0], ast.Subscript):
+            t = st.targets[0]
+            b = t.value
+            if isinstance(b, ast.Name) and ((b.id in module_names and b.id not in local) or b.id in globals_):
+                out.append((st, b.id, t.slice, st.value))
+            elif isinstance(b, ast.Attribute) and isinstance(b.value, ast.Name) and (b.value.id == "cls" or (cls_name and b.value.id == cls_name)):
+                out.append((st, ast.unparse(b), t.slice, st.value))
+        elif isinstance(st, ast.Expr) and isinstance(st.value, ast.Call) and isinstance(st.value.func, ast.Attribute) and st.value.func.attr == "setdefault" and len(st.value.args) == 2:
+            b = st.value.func.value
+            if isinstance(b, ast.Name) and ((b.id in module_names and b.id not in local) or b.id in globals_):
+                out.append((st, b.id, st.value.args[0], st.value.args[1]))
+    return out
+
+
+def memo_key_gaps(fi_node: ast.FunctionDef, key: ast.expr, value: ast.expr) -> List[str]:
+    """Parameters of the function that the memoised `value` depends on but that the `key` does not determine (they
+    occur in the key only under a non-injective function -- len(), sum(), .shape, ... -- or not at all).
+    Dependencies and the key are followed through the function's local assignments (flow-insensitive)."""
+    params = [a.arg for a in fi_node.args.posonlyargs + fi_node.args.args + fi_node.args.kwonlyargs if a.arg not in ("self", "cls")]
+    defs: Dict[str, List[ast.expr]] = {}
+    for x in ast.walk(fi_node):
+        if isinstance(x, ast.Assign):
+            for t in x.targets:
+                for y in ast.walk(t):
+                    if isinstance(y, ast.Name) and isinstance(y.ctx, ast.Store):
+                        defs.setdefault(y.id, []).append(x.value)
+        elif isinstance(x, (ast.AugAssign, ast.AnnAssign)) and isinstance(x.target, ast.Name) and x.value is not None:
+            defs.setdefault(x.target.id, []).append(x.value)
+        elif isinstance(x, (ast.For, ast.comprehension)):
+            for y in ast.walk(x.target):
+                if isinstance(y, ast.Name):
+                    defs.setdefault(y.id, []).append(x.iter)
+    # (0) names (parameters or locals) that occur injectively in the key
+    key_names: Set[str] = set()
+
+    def knames(e: ast.expr, injective: bool, depth: int = 0):
+        if depth > 8 or e is None:
+            return
+        if isinstance(e, ast.Name):
+            if injective:
+                key_names.add(e.id)
+            if e.id not in params or e.id in defs:
+                for d in defs.get(e.id, []):
+                    knames(d, injective, depth + 1)
+            return
+        if isinstance(e, (ast.Tuple, ast.List)):
+            for x in e.elts:
+                knames(x, injective, depth)
+        elif isinstance(e, ast.IfExp):
+            knames(e.body, injective, depth)
+            knames(e.orelse, injective, depth)
+        elif isinstance(e, ast.Call):
+            inj = injective and dotted_name(e.func).split(".")[-1] in _INJECTIVE_WRAPPERS
+            for a in e.args:
+                knames(a, inj, depth)
+            if isinstance(e.func, ast.Attribute):
+                knames(e.func.value, inj, depth)
+        elif isinstance(e, (ast.GeneratorExp, ast.ListComp)):
+            for g in e.generators:
+                knames(g.iter, injective, depth)
+
+    knames(key, True)
+    # (1) parameters the value depends on (not looking behind a name that the key already determines)
+    dep: Set[str] = set()
+    seen: Set[str] = set()
+    todo = [y.id for y in ast.walk(value) if isinstance(y, ast.Name)]
+    # statements that mutate a local the value is built from (s.update(p)) make it depend on their arguments too
+    while todo:
+        nm = todo.pop()
+        if nm in seen:
+            continue
+        seen.add(nm)
+        if nm in key_names:
+            continue
+        if nm in params and nm not in defs:
+            dep.add(nm)
+            continue
+        if nm in params:
+            dep.add(nm)
+        for e in defs.get(nm, []):
+            todo += [y.id for y in ast.walk(e) if isinstance(y, ast.Name)]
+        for x in ast.walk(fi_node):
+            if isinstance(x, ast.Call) and isinstance(x.func, ast.Attribute) and isinstance(x.func.value, ast.Name) and x.func.value.id == nm and x.func.attr in INPLACE_CONTAINER_METHODS:
+                for a in list(x.args) + [k.value for k in x.keywords]:
+                    todo += [y.id for y in ast.walk(a) if isinstance(y, ast.Name)]
+    # conditions guarding definitions (if p is not None: s.update(p)) are covered through the arguments themselves
+
+    # (2) parameters the key determines
+    determined: Set[str] = set()
+
+    def visit(e: ast.expr, injective: bool, depth: int = 0):
+        if depth > 8:
+            return
+        if isinstance(e, ast.Name):
+            if e.id in params and e.id not in defs:
+                if injective:
+                    determined.add(e.id)
+                return
+            if e.id in params and injective:
+                determined.add(e.id)
+            for d in defs.get(e.id, []):
+                visit(d, injective, depth + 1)
+            return
+        if isinstance(e, (ast.Tuple, ast.List)):
+            for x in e.elts:
+                visit(x, injective, depth)
+            return
+        if isinstance(e, ast.IfExp):
+            visit(e.body, injective, depth)
+            visit(e.orelse, injective, depth)
+            return
+        if isinstance(e, ast.Call):
+            nm = dotted_name(e.func).split(".")[-1]
+            inj = injective and nm in _INJECTIVE_WRAPPERS
+            for a in e.args:
+                visit(a, inj, depth)
+            if isinstance(e.func, ast.Attribute):
+                visit(e.func.value, inj, depth)
+            return
+        if isinstance(e, ast.GeneratorExp) or isinstance(e, ast.ListComp):
+            # tuple(int(i) for i in p)
+            for g in e.generators:
+                visit(g.iter, injective, depth)
+            return
+        if isinstance(e, ast.Attribute):
+            visit(e.value, False, depth)  # p.shape, p.size: not injective
+            return
+        if isinstance(e, ast.Subscript):
+            visit(e.value, False, depth)
+            return
+        if isinstance(e, (ast.BinOp, ast.UnaryOp, ast.Compare, ast.BoolOp)):
+            for x in ast.iter_child_nodes(e):
+                if isinstance(x, ast.expr):
+                    visit(x, False, depth)
+            return
+
+    visit(key, True)
+    return sorted(dep - determined)
